@@ -87,6 +87,11 @@ func init() {
 			kinds: []string{"none", "none", "permute"}})(cfg, emit); err != nil {
 			return err
 		}
+		// an invalid attestation by the authority listed before a stranger's attestation of the same token
+		if err := worldGen("C04", 80, 1600, genOpts{minDepth: 1, maxDepth: 4, sessions: true, sessionPct: 100, attVariant: 15,
+			kinds: []string{"none", "none", "permute"}})(cfg, emit); err != nil {
+			return err
+		}
 		// the same, as a server applies it: the server has answered the batch before, when the account's
 		// DID resolved to the key that really signed (a rotated key, a corrected resolver entry)
 		ns := 240
@@ -208,9 +213,18 @@ func execAccess(args []string) (res Result) {
 	if err != nil {
 		return Result{Impl: "concretise-error:" + err.Error()}
 	}
-	log := &runLog{}
+	return accessOn(cw, &w, mode, &runLog{})
+}
+
+// accessOn: one observed validator.Access on a concretised world
+func accessOn(cw *CWorld, w *AWorld, mode string, log *runLog) (res Result) {
+	defer func() {
+		if r := recover(); r != nil {
+			res.Impl = fmt.Sprintf("panic:%v", r)
+		}
+	}()
 	outcome, spine, flags := cw.Access(log)
-	final := mustJSON(&w)
+	final := mustJSON(w)
 	sp := "[]"
 	if spine != nil {
 		sp = mustJSON(spine)
